@@ -1,4 +1,6 @@
 -- Root of the `LdkModel` library: imports every property module.
-import LdkModel.Props.C05
 import LdkModel.Props.C01
+import LdkModel.Props.C05
 import LdkModel.Props.C08
+import LdkModel.Props.C13
+import LdkModel.Props.C20
